@@ -1,0 +1,20 @@
+//go:build verif
+
+package transform
+
+// Add-only verification hooks (never compiled into normal builds): expose
+// unexported helpers of the LZ codec so that their models can be compared
+// with the real functions.
+
+// VerifEmitLengthLZ returns the bytes emitLengthLZ writes for length.
+func VerifEmitLengthLZ(length int) []byte {
+	var buf [4]byte
+	n := emitLengthLZ(buf[:], length)
+	return buf[:n]
+}
+
+// VerifReadLengthLZ returns readLengthLZ(block): the decoded length and the
+// number of bytes consumed. block must hold at least 4 bytes.
+func VerifReadLengthLZ(block []byte) (int, int) {
+	return readLengthLZ(block)
+}
